@@ -886,10 +886,17 @@ func main() {
 		"of reachable cells between live messages) and checked by an independent oracle (snapshots of all live " +
 		"messages, reflection walk for storage shared up to the capacity of every slice, constructor output vs a constructor with " +
 		"empty pools); a case is non-trivial when at least one object came out of a pool while two messages were live; distinct = " +
-		"distinct op logs. stack: client streams with distinct profiles and client subnets through dnssvc.NewHandlers and the UDP " +
-		"writer's normalize with the production cloner and caches, concurrently and with responses held in use while further " +
-		"requests are served; each response compared with the response of the same request processed alone, with what it was " +
-		"when the handler returned it, and its client subnet with the one the request sent"
+		"distinct op logs. stack: client streams with distinct profiles, device names, locations and client subnets through " +
+		"dnssvc.NewHandlers and the UDP writer's normalize with the production cloner and caches (requests blocked at the request and at " +
+		"the response stage, allowed, CNAME-rewritten, answered by a rewrite rule, debug requests, requests dropped by the access rules " +
+		"and the rate limiter, signed names with and without DO), run (a) concurrently on all processors, every third round with the " +
+		"production file query log after a history of failed opens, (b) cooperatively on one processor with yields at every boundary " +
+		"between the stack and a fake, (c) in one goroutine with responses held in use while further requests are served; each " +
+		"response is compared with the response of the same request processed alone ON A NEW STACK, with what it was when the handler " +
+		"returned it, its client subnet with the one the request sent, the query-log lines with those of the requests alone, and at the " +
+		"filter boundary every field of filter.Request / filter.Response / agd.RequestInfo with the request's own identity (and no two " +
+		"requests in flight may use one RequestInfo). overlap: for 8 kinds of history x 8 boundaries x 14 ordered pairs of requests, " +
+		"request A is held at the boundary while request B is served completely, on one processor, and both are compared with alone"
 	m := hlib.StartModel(o.Model, "C07")
 	defer m.Close()
 	// C07_ONLY=cloner|stack restricts a development run to one campaign.
@@ -898,6 +905,7 @@ func main() {
 		clonerCampaign(o, r, m)
 	}
 	if only != "cloner" {
+		overlapCampaign(o, r)
 		stackCampaign(o, r)
 	}
 	r.Finish()
